@@ -44,15 +44,24 @@ func runHistoryCase(c *Ctx, kind string, opts int, inputs [][]rune, abortAt int)
 	distinctInputs := map[string]bool{}
 	for i, in := range inputs {
 		distinctInputs[string(in)] = true
-		if abortAt > 0 && i < len(inputs)-1 {
+		if abortAt != 0 && i < len(inputs)-1 {
 			// aborted iteration: fetch only `abortAt` tokens, then replace the reader
 			st := safeCallT(3*time.Second, func() string {
 				t.SetReader(newScanner(string(in)))
-				for k := 0; k < abortAt; k++ {
+				n := abortAt
+				if n < 0 {
+					n = -n
+				}
+				for k := 0; k < n; k++ {
 					if !t.HasNextToken() {
 						break
 					}
 					t.NextToken()
+				}
+				if abortAt < 0 {
+					// abandon the iteration right after a has-next query: a token is prefetched
+					// and never fetched
+					t.HasNextToken()
 				}
 				return ""
 			})
@@ -129,6 +138,8 @@ func propC05(c *Ctx) {
 				}
 				runHistoryCase(c, k, 0, [][]rune{a, b}, 1)
 				runHistoryCase(c, k, 127, [][]rune{a, b}, 2)
+				runHistoryCase(c, k, 0, [][]rune{a, b}, -1)
+				runHistoryCase(c, k, 78, [][]rune{a, b}, -2)
 			}
 		}
 		// has-next interleavings
@@ -164,6 +175,9 @@ func propC05(c *Ctx) {
 		ab := 0
 		if c.Rng.Intn(3) == 0 {
 			ab = 1 + c.Rng.Intn(3)
+			if c.Rng.Intn(2) == 0 {
+				ab = -ab
+			}
 		}
 		runHistoryCase(c, k, allOpts[c.Rng.Intn(128)], ins, ab)
 		pat := fmt.Sprintf("%d%d%d", c.Rng.Intn(4), c.Rng.Intn(4), c.Rng.Intn(4))
